@@ -96,14 +96,14 @@ fn i(x: i64) -> isize {
   x as isize
 }
 
-fn opt<T: Display>(o: Option<T>) -> String {
+pub fn opt<T: Display>(o: Option<T>) -> String {
   match o {
     Some(x) => format!("Some({})", x),
     None => "None".to_string(),
   }
 }
 
-fn join<T, F: Fn(&T) -> String>(v: &[T], f: F) -> String {
+pub fn join<T, F: Fn(&T) -> String>(v: &[T], f: F) -> String {
   let mut s = String::new();
   s.push_str(&format!("#{}[", v.len()));
   for (k, x) in v.iter().enumerate() {
@@ -136,27 +136,27 @@ pub fn r_st(t: &SolarTime) -> String {
   format!("ST({} {} {} {}:{}:{})", t.get_year(), t.get_month(), t.get_day(), t.get_hour(), t.get_minute(), t.get_second())
 }
 
-fn r_term(t: &SolarTerm) -> String {
+pub fn r_term(t: &SolarTerm) -> String {
   format!("TERM({} {} {} jd={:016x})", t.get_year(), t.get_index(), t, t.get_cursory_julian_day().to_bits())
 }
 
-fn r_scm(m: &SixtyCycleMonth) -> String {
+pub fn r_scm(m: &SixtyCycleMonth) -> String {
   format!("SCM({} {} {} idx={})", m.get_sixty_cycle_year().get_year(), m.get_year(), m.get_sixty_cycle(), m.get_index_in_year())
 }
 
-fn r_scd(d: &SixtyCycleDay) -> String {
+pub fn r_scd(d: &SixtyCycleDay) -> String {
   format!("SCD({} y={} m={} d={} {})", r_sd(&d.get_solar_day()), d.get_year(), d.get_month(), d.get_sixty_cycle(), r_scm(&d.get_sixty_cycle_month()))
 }
 
-fn r_sch(h: &SixtyCycleHour) -> String {
+pub fn r_sch(h: &SixtyCycleHour) -> String {
   format!("SCH({} y={} m={} d={} h={} idx={} day={})", r_st(&h.get_solar_time()), h.get_year(), h.get_month(), h.get_day(), h.get_sixty_cycle(), h.get_index_in_day(), r_scd(&h.get_sixty_cycle_day()))
 }
 
-fn r_ec(e: &EightChar) -> String {
+pub fn r_ec(e: &EightChar) -> String {
   format!("EC({} {} {} {})", e.get_year(), e.get_month(), e.get_day(), e.get_hour())
 }
 
-fn r_lw(w: &LunarWeek) -> String {
+pub fn r_lw(w: &LunarWeek) -> String {
   format!("LW({} {} idx={} start={} {})", w.get_year(), w.get_month(), w.get_index(), w.get_start(), w)
 }
 
@@ -172,11 +172,11 @@ fn r_hol(h: &LegalHoliday) -> String {
   format!("HOL({} day={} work={})", h, r_sd(&h.get_day()), h.is_work())
 }
 
-fn taboos(v: &[Taboo]) -> String {
+pub fn taboos(v: &[Taboo]) -> String {
   join(v, |t| t.to_string())
 }
 
-fn gods(v: &[God]) -> String {
+pub fn gods(v: &[God]) -> String {
   join(v, |g| format!("{}{}", g, g.get_luck()))
 }
 
@@ -357,6 +357,91 @@ fn q_ld_next(a: &[i64]) -> Result<String, String> {
 
 fn q_ld_step(a: &[i64]) -> Result<String, String> {
   Ok(r_ld(&LunarDay::from_ymd(i(a[0]), i(a[1]), u(a[2])).next(i(a[3]))))
+}
+
+fn h_new(kind: usize, a: &[i64]) -> Result<String, String> {
+  Ok(crate::handles::Handle::make(kind, &a[..crate::handles::HARITY[kind]])?.render())
+}
+
+fn h_get(kind: usize, a: &[i64]) -> Result<String, String> {
+  let n = crate::handles::HARITY[kind];
+  Ok(crate::handles::Handle::make(kind, &a[..n])?.get(a[n]))
+}
+
+fn h_step(kind: usize, a: &[i64]) -> Result<String, String> {
+  let n = crate::handles::HARITY[kind];
+  Ok(crate::handles::Handle::make(kind, &a[..n])?.step(a[n]).render())
+}
+
+fn h_cmp(kind: usize, a: &[i64]) -> Result<String, String> {
+  let n = crate::handles::HARITY[kind];
+  let x = crate::handles::Handle::make(kind, &a[..n])?;
+  let y = crate::handles::Handle::make(kind, &a[n..2 * n])?;
+  x.compare(&y).ok_or("not comparable".to_string())
+}
+
+fn q_ld_cmp(a: &[i64]) -> Result<String, String> {
+  h_cmp(0, a)
+}
+
+fn q_lh_cmp(a: &[i64]) -> Result<String, String> {
+  h_cmp(1, a)
+}
+
+fn q_scd_cmp(a: &[i64]) -> Result<String, String> {
+  h_cmp(2, a)
+}
+
+fn q_sch_cmp(a: &[i64]) -> Result<String, String> {
+  h_cmp(3, a)
+}
+
+fn q_lw_cmp(a: &[i64]) -> Result<String, String> {
+  h_cmp(4, a)
+}
+
+fn q_term_cmp(a: &[i64]) -> Result<String, String> {
+  h_cmp(5, a)
+}
+
+fn q_scd_new(a: &[i64]) -> Result<String, String> {
+  h_new(2, a)
+}
+
+fn q_sch_new(a: &[i64]) -> Result<String, String> {
+  h_new(3, a)
+}
+
+fn q_lw_new(a: &[i64]) -> Result<String, String> {
+  h_new(4, a)
+}
+
+fn q_term_new(a: &[i64]) -> Result<String, String> {
+  h_new(5, a)
+}
+
+fn q_scd_get(a: &[i64]) -> Result<String, String> {
+  h_get(2, a)
+}
+
+fn q_sch_get(a: &[i64]) -> Result<String, String> {
+  h_get(3, a)
+}
+
+fn q_lw_get(a: &[i64]) -> Result<String, String> {
+  h_get(4, a)
+}
+
+fn q_term_get(a: &[i64]) -> Result<String, String> {
+  h_get(5, a)
+}
+
+fn q_lw_step(a: &[i64]) -> Result<String, String> {
+  h_step(4, a)
+}
+
+fn q_scd_hour(a: &[i64]) -> Result<String, String> {
+  Ok(crate::handles::Handle::make(2, &a[..3])?.hour(u(a[3]))?.render())
 }
 
 fn q_ld_hour(a: &[i64]) -> Result<String, String> {
@@ -669,6 +754,22 @@ pub static KINDS: &[KindDef] = &[
   KindDef { name: "LD.step", arity: 4, exec: q_ld_step, family: FAM_LD, cost: 0 },
   KindDef { name: "LH.step", arity: 7, exec: q_lh_step, family: FAM_LH, cost: 0 },
   KindDef { name: "LD.hour", arity: 4, exec: q_ld_hour, family: FAM_LD, cost: 1 },
+  KindDef { name: "LD.cmp", arity: 6, exec: q_ld_cmp, family: FAM_LD, cost: 0 },
+  KindDef { name: "LH.cmp", arity: 12, exec: q_lh_cmp, family: FAM_LH, cost: 0 },
+  KindDef { name: "SCD.cmp", arity: 6, exec: q_scd_cmp, family: FAM_SC, cost: 1 },
+  KindDef { name: "SCH.cmp", arity: 12, exec: q_sch_cmp, family: FAM_SC, cost: 1 },
+  KindDef { name: "LW.cmp", arity: 8, exec: q_lw_cmp, family: FAM_LW, cost: 1 },
+  KindDef { name: "TERM.cmp", arity: 4, exec: q_term_cmp, family: FAM_SD, cost: 0 },
+  KindDef { name: "SCD.new", arity: 3, exec: q_scd_new, family: FAM_SC, cost: 1 },
+  KindDef { name: "SCH.new", arity: 6, exec: q_sch_new, family: FAM_SC, cost: 1 },
+  KindDef { name: "LW.new", arity: 4, exec: q_lw_new, family: FAM_LW, cost: 0 },
+  KindDef { name: "TERM.new", arity: 2, exec: q_term_new, family: FAM_SD, cost: 0 },
+  KindDef { name: "SCD.get", arity: 4, exec: q_scd_get, family: FAM_SC, cost: 1 },
+  KindDef { name: "SCH.get", arity: 7, exec: q_sch_get, family: FAM_SC, cost: 1 },
+  KindDef { name: "LW.get", arity: 5, exec: q_lw_get, family: FAM_LW, cost: 1 },
+  KindDef { name: "TERM.get", arity: 3, exec: q_term_get, family: FAM_SD, cost: 0 },
+  KindDef { name: "LW.step", arity: 5, exec: q_lw_step, family: FAM_LW, cost: 1 },
+  KindDef { name: "SCD.hour", arity: 4, exec: q_scd_hour, family: FAM_SC, cost: 1 },
   KindDef { name: "SW", arity: 4, exec: q_sw, family: FAM_SD, cost: 0 },
   KindDef { name: "SW.next", arity: 5, exec: q_sw_next, family: FAM_SD, cost: 0 },
   KindDef { name: "SM.days", arity: 3, exec: q_sm_days, family: FAM_SD, cost: 1 },
